@@ -41,6 +41,30 @@ form('plus-bigint-regex', { ops: ['+'] }, F => `${F.loc()} + 1n + /r${F.id()}/g`
 form('plus-obj-toprim', { ops: ['+'] }, F => `${F.o()} + ${F.s()}`)
 form('plus-alias-reassign', { ops: ['+'] }, F => { const a = F.loc(); return `${a} + (${a} = ${F.s()}, ${F.f()}) + ${a}` })
 form('plus-alias-closure', { ops: ['+'] }, F => { const a = F.loc(); return `${a} + ((() => { ${a} = ${F.s()} })(), ${F.f()})` })
+// an identifier operand next to an operand whose evaluation runs an implicit coercion that reassigns the identifier
+// (the identifier must have been read before), or next to an unresolvable / TDZ identifier (the ReferenceError comes first)
+const reassigner = (F, a) => F.loc(`{ valueOf() { ${a} = ${F.s()}; return 1 }, toString() { ${a} = ${F.s()}; return 't' } }`)
+for (const [tag, mk] of [['negated', o => `-${o}`], ['unaryplus', o => `+${o}`], ['bitnot', o => `~${o}`], ['arith', o => `${o} * 2`], ['compare', o => `(${o} < 1)`], ['stringcall', o => `String(${o})`], ['paren-negated', o => `(-${o})`], ['double-negated', o => `- -${o}`]]) {
+  form(`plus-ident-then-${tag}-reassigner`, { ops: ['+'] }, F => { const a = F.loc(); return `${a} + ${mk(reassigner(F, a))}` })
+}
+form('addassign-ident-then-negated-reassigner', { ops: ['+='] }, F => { const a = F.loc(); return `${a} += -${reassigner(F, a)}` })
+form('addassign-ident-then-unaryplus-reassigner', { ops: ['+='] }, F => { const a = F.loc(); return `${a} += +${reassigner(F, a)}` })
+form('tpl-ident-then-negated-reassigner', { ops: ['tpl'] }, F => { const a = F.loc(); return `\`\${${a}}|\${-${reassigner(F, a)}}\`` })
+form('concat-ident-arg-then-negated-reassigner', { ops: ['concat'] }, F => { const a = F.loc(); return `${F.loc()}.concat(${a}, -${reassigner(F, a)})` })
+form('plus-undeclared-then-negated-worldobj', { ops: ['+'] }, F => `undeclaredV${F.id()} + -w.o${F.id()}`)
+form('plus-undeclared-then-ident', { ops: ['+'] }, F => `undeclaredV${F.id()} + ${F.loc()}`)
+form('plus-undeclared-then-call', { ops: ['+'] }, F => `undeclaredV${F.id()} + ${F.f()}`)
+form('plus-call-then-undeclared', { ops: ['+'] }, F => `${F.f()} + undeclaredV${F.id()}`)
+form('addassign-undeclared-target', { ops: ['+='] }, F => `undeclaredV${F.id()} += ${F.f()}`)
+form('concat-undeclared-receiver', { ops: ['concat'] }, F => `undeclaredV${F.id()}.concat(${F.f()})`)
+form('plus-tdz-then-negated-worldobj', { ops: ['+'] }, F => { const t = 'tdzV' + F.id(); return `(() => { const r = ${t} + -w.o${F.id()}; let ${t} = 1; return r })()` })
+form('plus-negated-worldobjs', { ops: ['+'] }, F => `-w.o${F.id()} + -w.o${F.id()}`)
+// an enabled operation inside the computed key of a plain member chain
+form('plus-in-computed-key', { ops: ['+'] }, F => `w.o${F.id()}[${F.s()} + ${F.f()}]`)
+form('plus-in-computed-key-chain', { ops: ['+'] }, F => `w.o${F.id()}[${F.loc()} + ${F.s()}].p.q`)
+form('tpl-in-computed-key', { ops: ['tpl'] }, F => `w.o${F.id()}[\`k\${${F.loc()}}\`]`)
+form('call-in-computed-key-this', { ops: ['trim'], needs: 'this' }, F => `this.o${F.id()}[${F.loc()}.trim()]`)
+form('call-in-computed-key-local', { ops: ['trim'] }, F => `${F.loc(F.o())}[${F.loc()}.trim()].p`)
 form('plus-cond-operand', { ops: ['+'] }, F => `${F.loc()} + (w.b${F.id()} ? ${F.s()} : ${F.f()})`)
 form('plus-mul-operand', { ops: ['+'] }, F => `${F.loc()} + w.i${F.id()} * 2`)
 form('plus-unary-operands', { ops: ['+'] }, F => `typeof ${F.loc()} + -w.i${F.id()}`)
@@ -148,6 +172,12 @@ form('proto-apply-hole', { ops: ['concat'] }, F => `String.prototype.concat.appl
 form('proto-call-spread-this', { ops: ['concat'], nodemand: true }, F => `String.prototype.concat.call(...w.it${F.id()})`)
 form('proto-call-lit-this-litargs', { ops: ['concat'], instr: false }, F => `String.prototype.concat.call('⟦L${F.id()}⟧', 'x')`)
 form('proto-call-lit-this-args', { ops: ['concat'], nodemand: true }, F => `String.prototype.concat.call('⟦L${F.id()}⟧', ${F.loc()})`)
+// m.call / m.apply reached through something that is not a static `X.prototype.m` path (the rewriter instruments these too)
+form('nonproto-call-local', { ops: ['concat'], nodemand: true }, F => `${F.loc()}.concat.call(${F.loc()}, ${F.s()})`)
+form('nonproto-call-member-path', { ops: ['concat'], nodemand: true }, F => `w.o${F.id()}.s1.concat.call(${F.f()}, ${F.s()})`)
+form('nonproto-call-callresult', { ops: ['concat'], nodemand: true }, F => `w.fobj${F.id()}().s1.concat.call(${F.f()}, ${F.s()})`)
+form('nonproto-apply-callresult', { ops: ['concat'], nodemand: true }, F => `w.f${F.id()}().concat.apply(${F.f()}, [${F.s()}, ${F.f()}])`)
+form('nonproto-call-computed-path', { ops: ['trim'], nodemand: true }, F => `w.o${F.id()}[w.k${F.id()}].trim.call(${F.f()})`)
 form('proto-apply-spread-elem', { ops: ['concat'] }, F => `String.prototype.concat.apply(${F.loc()}, [${F.s()}, ...w.it${F.id()}])`)
 // optional chains
 form('opt-ident-call', { ops: ['trim'] }, F => `${F.loc()}?.trim()`)
@@ -254,6 +284,14 @@ place('typeof-operand', { thisOk: true }, E => `w.out(typeof (${E}));`)
 place('void-operand', { thisOk: true }, E => `w.out(void (${E}));`)
 place('not-operand', { thisOk: true }, E => `w.out(!(${E}));`)
 place('delete-operand', { thisOk: true, excl: 'delete' }, E => `w.out(delete w.o1[${E}]);`)
+place('computed-member-key', { thisOk: true }, E => `w.out(w.o1[${E}]);`)
+place('computed-member-key-chain', { thisOk: true }, E => `w.out(w.o1[${E}].p.q);`)
+place('arrow-returning-computed-member', { thisOk: true }, E => `const af = (k) => w.o1[${E}]; w.out(af(w.s1));`)
+place('arrow-returning-member-of-call', { thisOk: true }, E => `const af = (k) => w.id1(${E}).length; w.out(af(w.s1));`)
+place('arrow-returning-object-literal', { thisOk: true }, E => `const af = () => ({ k: ${E} }); w.out(af());`)
+place('arrow-returning-sequence', { thisOk: true }, E => `const af = () => (w.f1(), ${E}); w.out(af());`)
+place('arrow-returning-conditional', { thisOk: true }, E => `const af = (c) => c ? ${E} : w.s2; w.out(af(w.b1));`)
+place('arrow-returning-arrow-in-call-arg', { thisOk: true }, E => `w.out(w.cb1((x) => (y) => ${E})(w.s1));`)
 place('member-of', { thisOk: true }, E => `w.out((${E}).length);`)
 place('optional-call-arg', { thisOk: true }, E => `w.out(w.o1?.f1(${E}));`)
 place('yield-operand', {}, E => `function* g() { const r = yield ${E}; w.out(r) } const it = g(); w.out(it.next().value); w.out(it.next(w.s1).done);`)
@@ -356,9 +394,12 @@ function knownPairs () {
 }
 
 // all compatible pairs
+// debugging aid (never set by the registered commands): VERIF_ONLY_FORMS / VERIF_ONLY_PLACEMENTS = regex restricting the product
+const ONLY_F = process.env.VERIF_ONLY_FORMS ? new RegExp(process.env.VERIF_ONLY_FORMS) : null
+const ONLY_P = process.env.VERIF_ONLY_PLACEMENTS ? new RegExp(process.env.VERIF_ONLY_PLACEMENTS) : null
 function allPairs () {
   const out = []
-  for (const pl of PLACEMENTS) for (const fm of FORMS) if (compatible(pl, fm) && !isKnownShape(pl, fm)) out.push([pl, fm])
+  for (const pl of PLACEMENTS) for (const fm of FORMS) if (compatible(pl, fm) && !isKnownShape(pl, fm) && (!ONLY_F || ONLY_F.test(fm.id)) && (!ONLY_P || ONLY_P.test(pl.id))) out.push([pl, fm])
   return out
 }
 
